@@ -58,7 +58,8 @@ PROPS = {
         "rule": "60 (3000) random trees: 1-6 directories to depth 3 from 14 names (half of them skipped kinds), 1-12 files from 11 stems x 9 kinds. "
                 "Non-trivial = the specification writes or removes at least one file.",
         "exhaustive": False,
-        "proved": ["C15_spec", "C15_schedule_independent", "C15_sequential_complete", "C15_generated", "C15_orphan", "C15_untouched", "C15_idempotent", "C15_pinned"],
+        "proved": ["C15_spec", "C15_schedule_independent", "C15_sequential_complete", "C15_generated", "C15_orphan", "C15_untouched", "C15_idempotent", "C15_pinned",
+                   "C15_transcription_pinned (T1: control structure and calls of eventhandler.go:FileWriter, eventhandler.go:FSEventHandler.HandleEvent, eventhandler.go:FSEventHandler.UpsertLastModTime, watch.go:WalkFiles)"],
         "monitored": ["tree after run 1 = spec(tree before)", "exit status <-> some visited template cannot be generated", "run 2 changes nothing",
                       "only written/removed paths get a new mtime", "race detector reports of the templ binary"],
         "partial": ["real goroutine scheduling and the Go memory model", "symlinks, watch mode, -f single-file mode, custom watch patterns, file names containing line breaks"],
@@ -85,7 +86,8 @@ PROPS = {
         "rule": "2 (6) rounds x {normal, development mode} of 12 (16) goroutines x 60 (400) operations drawn from 11 shared components x 5 kinds "
                 "(plain, slow writer, failing writer at a random offset, buffered HTTP handler, cancelled context). Non-trivial = more than 100 renders in a round.",
         "exhaustive": False,
-        "proved": ["C14_isolated (schedule independence at step granularity)"],
+        "proved": ["C14_isolated (schedule independence at step granularity)",
+                   "C14_transcription_pinned (T1: control structure and calls of buffer.go:Buffer.Reset, bufferpool.go:GetBuffer, bufferpool.go:ReleaseBuffer)"],
         "monitored": ["race detector reports", "every concurrent result = sequential reference", "no fatal runtime error (concurrent map access)"],
         "partial": ["Go memory model / data-race freedom is not proved"],
         "trusted_base": ["sync.Pool, sync.Mutex", "Go race detector (support only)"],
@@ -126,7 +128,8 @@ PROPS = {
                 "Non-trivial = escaping changed the string / HasChanged said no recompilation.",
         "exhaustive": True,
         "proved": ["C16_roundtrip", "C16_devmode", "C16_norecompile", "C16_haschanged_pinned (T1)", "C16_textfile_current", "C16_textfile_current_joined",
-                   "C16_textguard_pinned (T1)", "C16_watch_fresh", "C16_watch_inv", "C16_watch_pinned (T1)"],
+                   "C16_textguard_pinned (T1)", "C16_watch_fresh", "C16_watch_inv", "C16_watch_pinned (T1)",
+                   "C16_transcription_pinned (T1: control structure and calls of eventhandler.go:FSEventHandler.UpsertHash, watchmode.go:WriteString, watchmode.go:cacheStrings, watchmode.go:getWatchedStrings)"],
         "monitored": ["model = real strconv.Quote / Unquote", "real literals survive the text file", "dev-mode render = normal render (child process)",
                       "HasChanged false => generated code equal outside literals (also with the real handler's verdict per edit)",
                       "text file on disk after an edit session = text file of the last version (real FSEventHandler)",
@@ -157,7 +160,8 @@ PROPS = {
                 "Non-trivial = more than two uses.",
         "exhaustive": False,
         "proved": ["C12_once", "C12_before_script", "C12_before_class", "C12_every_use", "C12_middleware", "C12_independent",
-                   "whole templates (Denote, every tree and environment): the script definitions emitted during one render are pairwise different (C12_template_scripts_once, C12_template_emit)"],
+                   "whole templates (Denote, every tree and environment): the script definitions emitted during one render are pairwise different (C12_template_scripts_once, C12_template_emit)",
+                   "C12_transcription_pinned (T1: control structure and calls of runtime.go:renderCSSItemsToBuilder, once.go:OnceHandle.Once, scripttemplate.go:RenderScriptItems)"],
         "monitored": ["two script templates that are different functions never share a function name (known finding for same body / different parameters)", "model events = events parsed from the real output", "property predicate on the real events", "stylesheet endpoint = registered classes"],
         "partial": ["CSS class rules and once handles in arbitrary templates are outside the template semantics (Denote carries script emission only); they are covered by the registry model and its event run"],
         "trusted_base": ["harness event parser", "Go map semantics of contextValue.ss"],
@@ -220,7 +224,8 @@ PROPS = {
                 "cancelled context. Non-trivial = a fault inside the document / output larger than the buffer.",
         "exhaustive": True,
         "proved": ["C10_prefix", "C10_nil_full", "C10_fault_reported", "C10_step_error", "C10_ctx", "C10_pool",
-                   "whole templates (Denote, every tree and environment): a failing render has written a prefix of the document and evaluated a prefix of the expressions of the render without failures (C10_template_prefix); no error reported => the complete document (C10_template_nil_full); nothing is written, evaluated or emitted after a failure (C10_template_frozen)"],
+                   "whole templates (Denote, every tree and environment): a failing render has written a prefix of the document and evaluated a prefix of the expressions of the render without failures (C10_template_prefix); no error reported => the complete document (C10_template_nil_full); nothing is written, evaluated or emitted after a failure (C10_template_frozen)",
+                   "C10_transcription_pinned (T1: control structure and calls of buffer.go:Buffer.Flush, buffer.go:Buffer.Write, buffer.go:Buffer.WriteString)"],
         "monitored": ["a component that fails by itself (also inside a Flush block) reports an error and has written a proper prefix of its non-failing variant", "the concurrent phase shared with C14 (race-built child: overlapping renders incl. CSS components and failed handler requests, every result = the render alone)", "bufio model = real runtime.Buffer (bytes received, per-operation errors)", "prefix / nil-full / fault-reported / error-line / after-failure predicates on real renders"],
         "partial": [],
         "trusted_base": ["bufio.Writer, sync.Pool"],
@@ -365,7 +370,8 @@ PROPS = {
         "rule": "4 statuses x 2 content types x 7 error handlers x {buffered, streamed} x 8 chunk patterns x (success + error kinds); k = 0..40 "
                 "chunks then fail under 3 configurations. Non-trivial = the component wrote something and then failed.",
         "exhaustive": True,
-        "proved": ["C11_main", "C11_success", "C11_failure", "C11_default_error", "C11_stream_contrast", "C11_wiring_pinned (T1)"],
+        "proved": ["C11_main", "C11_success", "C11_failure", "C11_default_error", "C11_stream_contrast", "C11_wiring_pinned (T1)",
+                   "C11_transcription_pinned (T1: control structure and calls of handler.go:ComponentHandler.ServeHTTP, handler.go:ComponentHandler.ServeHTTPBuffered)"],
         "monitored": ["the concurrent phase shared with C14 (overlapping requests after failed buffered requests)", "model = real templ.Handler on httptest.ResponseRecorder: status, Content-Type, body"],
         "partial": [],
         "trusted_base": ["net/http ResponseWriter / http.Error semantics", "httptest.ResponseRecorder"],
@@ -373,30 +379,39 @@ PROPS = {
     },
     "C18": {
         "claimed": True,
-        "model_modules": ["TemplVerif.Model.Frame"],
-        "proof_modules": ["TemplVerif.Proofs.Frame"],
+        "model_modules": ["TemplVerif.Model.Frame", "TemplVerif.Model.Mux"],
+        "proof_modules": ["TemplVerif.Proofs.Frame", "TemplVerif.Proofs.Mux"],
         "level_text": "Lean 4 theorems: every sequence of frames written by the model of stream.Write is read back by the model of stream.Read "
                       "as the same sequence of bodies for every chunking of the byte stream (C18_roundtrip, via decimal/ParseInt round trip and "
                       "the header loop), the length header counts bytes, the reader is total (C18_total); and for the call/response transition "
                       "system of conn.go, for EVERY schedule of calls, responses in any order / late / never / for unknown ids, cancellations "
                       "and select choices: each completed call holds the response carrying its id or its own cancellation (C18_match), ids are "
-                      "never reused and nothing stays pending (C18_ids), the read loop never blocks when each id is answered at most once "
-                      "(C18_no_block). The models are compared on every run with the real NewStream (real Write framing; read-back under many "
+                      "never reused and nothing stays pending (C18_ids), the read loop never blocks - since the repair of the blocking send for "
+                      "every behaviour of the peer, duplicated responses included (C18_no_block_any; C18_no_block is the earlier, conditional "
+                      "statement). Concurrent senders: any number of senders that go through conn.write (mutex around the two transport writes of "
+                      "a frame), interleaved at the granularity of single writes under EVERY schedule, leave a stream that is their frames in "
+                      "some order - a permutation, nothing cut - and that reads back whole (C18_frames_atomic, C18_concurrent_roundtrip; "
+                      "C18_unlocked_counterexample shows a sender that bypasses the mutex; C18_write_pinned is the T1 fact that only `write` "
+                      "touches the stream, between Lock and Unlock, and that Call, Notify and the replier send through it). The models are compared on every run with the real NewStream (real Write framing; read-back under many "
                       "chunkings incl. every split point of short streams; 33 malformed/truncated frames + random header soup with error kinds) "
                       "and the real NewConn against a scripted peer over net.Pipe (out-of-order, late, never, unknown-id, cancel-racing-reply), "
                       "whose observed outcomes are replayed on the Rpc model.",
         "level_note": "Partial: message bodies are opaque bytes in the theorems (encoding/json is outside); bufio.Reader's chunk-independence is "
                       "trusted and exercised by T2; the Rpc theorems cover all interleavings of the modelled atomic steps (channel of capacity 1, "
-                      "pending map under its mutex, atomic frame writes under writeMu) - real scheduling is sampled, not forced; a peer that "
-                      "answers one id twice while the caller is cancelled can block the read loop (outside the statement's quantifier; C18_no_block "
-                      "states the needed hypothesis).",
+                      "pending map under its mutex, frame writes under writeMu) - real scheduling is sampled, not forced (the mux run uses a "
+                      "transport that pauses after every header).",
         "rule": "round trips: random sequences of 1-5 calls/notifications/responses (numeric and string ids, multi-byte and 5 KB payloads) written by "
                 "the real stream, read back whole and in chunks of 1,2,3,5,17,64,4095,4096,4097 and random sizes, and at EVERY two-chunk split of "
                 "streams < 400 bytes; malformed: 33 hand-written header defects x 3 chunkings + random header soup; rpc: rounds of 1-6 concurrent "
-                "callers x 5 peer behaviours. Non-trivial = non-empty stream / more than one caller.",
+                "callers x 6 peer behaviours (answer, late, never, cancel racing the reply, unknown id first, six copies in one piece); mux: 3 (40) "
+                "rounds of one connection answering 20-40 incoming calls while 3 goroutines send 15 notifications each. "
+                "Non-trivial = non-empty stream / more than one caller.",
         "exhaustive": False,
-        "proved": ["C18_frame_roundtrip", "C18_roundtrip", "C18_length_counts_bytes", "C18_total", "C18_match", "C18_ids", "C18_no_block"],
-        "monitored": ["model framing = real stream.Write bytes", "model reader = real stream.Read (frames and error kinds)", "real NewConn outcomes replay on the Rpc model"],
+        "proved": ["C18_frame_roundtrip", "C18_roundtrip", "C18_length_counts_bytes", "C18_total", "C18_match", "C18_ids", "C18_no_block", "C18_no_block_any",
+                   "C18_frames_atomic", "C18_concurrent_roundtrip", "C18_write_pinned (T1)",
+                   "C18_transcription_pinned (T1: control structure and calls of conn.go:conn.Call, conn.go:conn.Notify, conn.go:conn.replier, conn.go:conn.run, conn.go:conn.write, stream.go:stream.Read, stream.go:stream.Write)"],
+        "monitored": ["model framing = real stream.Write bytes", "model reader = real stream.Read (frames and error kinds)", "real NewConn outcomes replay on the Rpc model",
+                      "a connection used in both roles at once writes whole frames only (mux)", "no call stays stuck beyond its own deadline"],
         "partial": ["JSON layer; real scheduling"],
         "trusted_base": ["bufio.Reader", "encoding/json", "net.Pipe"],
         "assumptions": STD_ASSUME,
@@ -420,7 +435,8 @@ PROPS = {
                 "clients and <= 2 broadcasts, each completed by settle + snapshot + drain; hand-written churn schedules incl. the witness of the "
                 "repaired defect; random schedules with up to 5 clients and 20 steps. Non-trivial = contains a broadcast and a cancel.",
         "exhaustive": True,
-        "proved": ["C19_safe", "C19_delivery", "C19_no_leak", "C19_wiring_pinned (T1)", "C19_unrepaired_counterexample"],
+        "proved": ["C19_safe", "C19_delivery", "C19_no_leak", "C19_wiring_pinned (T1)", "C19_unrepaired_counterexample",
+                   "C19_transcription_pinned (T1: control structure and calls of server.go:Handler.Send, server.go:Handler.ServeHTTP)"],
         "monitored": ["model = real sse.Handler under hook-forced schedules: panic, stuck goroutines, per-client logs"],
         "partial": ["real scheduling / memory model; fairness"],
         "trusted_base": ["Go channel and mutex semantics as modelled", "verif hooks in sse/server.go (yield points only)"],
@@ -446,7 +462,8 @@ PROPS = {
                 "encodings; 5 skip-header values x HX-Request x 3 encodings; truncated compressed streams; random fragment documents x random "
                 "everything. Non-trivial = anything but an identity-encoded non-HTML pass-through.",
         "exhaustive": False,
-        "proved": ["C20_passthrough", "C20_htmx", "C20_html (for all codecs with the round-trip law and all rewriters)"],
+        "proved": ["C20_passthrough", "C20_htmx", "C20_html (for all codecs with the round-trip law and all rewriters)",
+                   "C20_transcription_pinned (T1: control structure and calls of proxy.go:insertScriptTagIntoBody, proxy.go:Handler.modifyResponse, proxy.go:parseNonce)"],
         "monitored": ["model = real proxy end to end (status, body bytes, decoded body, Content-Length, Content-Encoding, Content-Type)",
                       "x/net/html render stability law", "parseNonce via the nonce attribute of the inserted script"],
         "partial": ["HTML parse/render and compression codecs are parameters, not verified"],
@@ -475,7 +492,8 @@ PROPS = {
                 "spellings x 110 value shapes (url() x quote kinds x schemes, quoted family lists, comment fragments, escapes) + random "
                 "compositions; css components rendered through the real generator. Non-trivial = value kept by the sanitiser and not purely alphabetic.",
         "exhaustive": True,
-        "proved": ["C05_main (DeclSafe of the sanitised pair, all inputs, all url.Parse behaviours)", "C05_name", "C05_styleAttr", "T1 pins by decide"],
+        "proved": ["C05_main (DeclSafe of the sanitised pair, all inputs, all url.Parse behaviours)", "C05_name", "C05_styleAttr", "T1 pins by decide",
+                   "C05_transcription_pinned (T1: control structure and calls of runtime.go:SanitizeCSS)"],
         "monitored": ["model = real safehtml.SanitizeCSS, templ.SanitizeCSS, SanitizeStyleAttributeValues (map, KV)", "scanner predicate on real outputs incl. rendered <style> text"],
         "partial": [],
         "trusted_base": ["CSS Syntax 3 declaration scanner spec (Spec/CssScan.lean)", "net/url.Parse as a parameter"],
@@ -506,7 +524,8 @@ PROPS = {
                 "position, JSON script); random nested values through scriptContent and SafeScript*. Non-trivial = output differs from input.",
         "exhaustive": True,
         "proved": ["C03_inliteral (all three quote kinds, all byte strings)", "C03_bare_string", "C03_json_html_safe", "C03_attr", "C03_fname",
-                   "table coverage / entry correctness by decide over the regenerated tables"],
+                   "table coverage / entry correctness by decide over the regenerated tables",
+                   "C03_transcription_pinned (T1: control structure and calls of scripttemplate.go:jsonEncodeParam, scriptelement.go:scriptContent)"],
         "monitored": ["models = real runtime.ScriptContent*, json.Marshal, templ.SafeScript*", "lexer predicate on real rendered documents for 11 positions",
                       "parser's in-literal flag of every {{ }} = the JS source lexer's, on generated scripts"],
         "partial": ["the parser's quote tracker is checked against the JS source lexer per input, not proved; known finding for regex literals / ${ } / <!--",
@@ -552,7 +571,8 @@ PROPS = {
         "proved": ["escape: no structural bytes, decode . escape = id (all byte strings)", "tokenizer hole lemmas for data and double-quoted attribute value",
                    "spread attribute value / JSON script open tag token shape", "all generator sinks wired through EscapeString (T1, decide)",
                    "composition: tokenize(Denote body env) = Expect.tokens body env for every tree of the markup fragment and every environment (C01_compose)",
-                   "static text not stopping inside a character reference decodes independently of what follows (C01_static_text_closed)"],
+                   "static text not stopping inside a character reference decodes independently of what follows (C01_static_text_closed)",
+                   "C01_transcription_pinned (T1: control structure and calls of runtime.go:EscapeString, runtime.go:RenderAttributes)"],
         "monitored": ["model = real EscapeString / RenderAttributes / JSONScript header", "token-stream predicate on real rendered output of 24 sink kinds",
                       "Lean tokenizer = x/net/html tokenizer on every rendered document",
                       "composition statement evaluated on the real bytes of compiled generated templates (tokenize(out) = Expect.tokens; Denote.out = out)",
@@ -583,7 +603,8 @@ PROPS = {
         "exhaustive": True,
         "proved": ["C04_main: sanitize s = s -> browser (WHATWG) scheme is none or allow-listed (or s is the failure URL), for every byte string",
                    "C04_else: any other input is replaced by the failure URL",
-                   "C04_schemes_pinned / C04_failedURL_pinned: the tables regenerated from url.go equal the statement's lists"],
+                   "C04_schemes_pinned / C04_failedURL_pinned: the tables regenerated from url.go equal the statement's lists",
+                   "C04_transcription_pinned (T1: control structure and calls of url.go:URL)"],
         "monitored": ["href / action supplied through spread attributes (known finding)", "model = real templ.URL on every explored string", "okPair(s, templ.URL(s)) evaluated in Lean on the real outputs"],
         "partial": ["'href/action only through the safe-URL type' is a Go type-checker fact: observed by C02's compiled batches (negative program), not proved"],
         "trusted_base": ["strings.IndexRune/ContainsRune on ASCII = byte search; strings.EqualFold against ASCII literals modelled with simple folding (U+017F, U+212A)",
@@ -609,7 +630,8 @@ PROPS = {
                 "replace nor an empty edit.",
         "exhaustive": True,
         "proved": ["C17_main: Document.Apply = byte splice for every document, ordered range (after clamping) and text",
-                   "C17_nil: nil range = full replace", "C17_hist: any change sequence keeps the copy equal to the editor's buffer"],
+                   "C17_nil: nil range = full replace", "C17_hist: any change sequence keeps the copy equal to the editor's buffer",
+                   "C17_transcription_pinned (T1: control structure and calls of documentcontents.go:Document.Apply, documentcontents.go:DocumentContents.Apply, documentcontents.go:DocumentContents.Delete, documentcontents.go:DocumentContents.Get, documentcontents.go:DocumentContents.Set)"],
         "monitored": ["model = real Document.Apply on every explored case", "real output = splice specification"],
         "partial": ["offsets are byte offsets as in the code (LSP UTF-16 units coincide for ASCII)"],
         "trusted_base": ["strings.Split / strings.Join modelled as splitLF / joinLF"],
